@@ -148,6 +148,9 @@ func replayCmd(repo, verif, file string) int {
 			fmt.Println("replay failed:", err)
 			return 2
 		}
+		if os.Getenv("VP_DEBUG") != "" {
+			fmt.Println(raw)
+		}
 		for i, o := range outs {
 			fmt.Printf("replay %s: expected %s %q, native %s %q %s\n", cases[i].Harness, cases[i].Expect, cases[i].Label, o.Result, o.Label, o.Msg)
 			if o.Result == "error" {
